@@ -246,7 +246,7 @@ def gen_o2m(rng):
 
 
 def gen(rng, tier):
-    n = 160 if tier == 'quick' else 1600
+    n = 400 if tier == 'quick' else 4000
     for _ in range(n):
         yield gen_partition(rng)
     for _ in range(n):
